@@ -6,8 +6,8 @@ def c01_fuzz_post(pid, tier, seed, ctx):
     """thorough tier of C01: coverage-guided libFuzzer campaign on the structure-aware target"""
     H = ctx["helpers"]
     V, B, rundir = ctx["V"], ctx["B"], ctx["rundir"]
-    secs = int(os.environ.get("C01_FUZZ_SECONDS", "20" if tier == "quick" else "300"))
-    njobs = int(os.environ.get("C01_FUZZ_JOBS", "4" if tier == "quick" else str(H.NCPU)))
+    secs = int(os.environ.get("C01_FUZZ_SECONDS", "12" if tier == "quick" else "420"))
+    njobs = int(os.environ.get("C01_FUZZ_JOBS", "8" if tier == "quick" else str(H.NCPU)))
     if secs <= 0:
         return [], {}, []
     objs, err = H.build_core("fuzz")
